@@ -613,6 +613,8 @@ class Function:
                 y = self.resolve_x(x)
                 if y is not x and y.get("k") != "x":
                     out |= self._shape_consts(y, depth)
+            elif k == "sizeof" and x.get("of") and isinstance(x.get("v"), int) and x["v"] > 64:
+                out.add("s:%s" % x["of"])
             elif k in ("int", "sizeof") and "v" in x:
                 out.add("k:%d" % x["v"])
             elif k in ("bin", "cond", "un", "cast") and "v" in x and not x.get("err"):
@@ -632,6 +634,8 @@ class Function:
         if n is None:
             return "?"
         k = n.get("k")
+        if k == "sizeof" and n.get("of") and isinstance(n.get("v"), int) and n["v"] > 64:
+            return "sizeof(%s)" % n["of"]        # the size of an object type changes with every field added to it: kept symbolic
         if "v" in n and k in ("int", "bin", "un", "cond", "sizeof", "cast"):
             return str(n["v"])
         if k == "ref":
@@ -724,7 +728,9 @@ class Function:
                             if d is not None:
                                 out |= self.anchors(d, depth - 1, _seen)
             elif k == "int" or k == "sizeof":
-                if "v" in x:
+                if k == "sizeof" and x.get("of") and isinstance(x.get("v"), int) and x["v"] > 64:
+                    out.add("s:%s" % x["of"])
+                elif "v" in x:
                     out.add("k:%d" % x["v"])
             if k in ("bin", "cond", "un", "cast") and "v" in x and not x.get("err"):
                 out.add("k:%d" % x["v"])
